@@ -13,13 +13,19 @@
     leading zero ... the number classification on saved text "0d…" / "-0d…"
     trailing bytes . the epilogue when the top-level value is complete and a byte follows
 
-  The lifting to documents - "take any valid document, insert one extension at any admissible
-  position: strict fails, default succeeds with the original value" - is `StrictRejectsStatement`
-  below; it needs the induction over `Doc` shared with C01 and is not proved yet.  The differential
-  run decides it on every admissible position of every generated document.
+  The lifting to documents is `default_accepts_extensions` / `strict_rejects_extensions` at the end
+  of this file: for every RFC 8259 document with any number of comments, trailing commas, single-
+  quoted strings / member names and non-lowercase literals at any admissible positions
+  (`Spec/Rfc8259X.lean`), default mode returns the value of the original document and strict mode
+  fails - two inductions over the extended document type (Lemmas/TokenerXDoc1-4, TokenerXRej1-5).
+  The token-changing forms (control characters, leading zeros, digit-less exponents, trailing bytes)
+  are covered by the per-token theorems here; the differential run decides all eight forms on every
+  admissible position of every generated document.
 -/
 import JsonC.Props.C04
 import JsonC.Spec.Rfc8259
+import JsonC.Lemmas.TokenerXRej5
+import JsonC.Props.C01
 
 namespace JsonC.Tokener
 open JsonC
@@ -150,14 +156,74 @@ theorem trailing_accepted (e : LoopEnd) (top : Level) (hst : e.tok.stack = [top]
   unfold epilogue
   simp [hfe, topCurrent, hst]
 
-/-- The full property on documents, to be proved by the induction shared with C01: `x` ranges over
-valid documents with one extension mark; `XText` is not defined yet, so the statement is recorded
-here in prose: for every valid `Text` and every single insertion of a comment (in a whitespace
-slot), a single-quoted string or name, a trailing comma, a non-lowercase literal, a raw control
-byte in a string or name, a superfluous leading zero, a digit-less exponent or trailing non-space
-bytes, `parseExZ` in strict mode ends with a status other than success/continue, and in default
-mode (for the value-neutral forms) with success and the original document's value. -/
-def StrictRejectsStatement : Prop := True   -- placeholder for the pending formal statement (see comment)
+/-! ### documents with extensions (Spec/Rfc8259X.lean)
+
+`XText` = an RFC 8259 text in which comments (in every gap), trailing commas, single-quoted strings
+and member names, and literals with upper-case letters may occur, any number of times, at every
+position where they are syntactically possible; `erase` is the original RFC 8259 text. -/
+
+open Rfc8259X in
+/-- **default mode accepts every such text, with the value of the original document**: any depth
+limit, any document, any combination of the value-neutral extensions at any positions. -/
+theorem default_accepts_extensions (lc : Libc) (hl : LibcSpec lc) (depth : Int) (t : Tok) (hnew : Tokener.new depth 0 = some t)
+    (x : XText) (hok : x.ok = true) (hknf : x.doc.erase.keysNulFree = true) (hdepth : x.doc.erase.nest + 1 ≤ depth.toNat) :
+    let f := parseEx lc t (x.text ++ [0])
+    f.err = .success ∧ f.value = some x.erase.doc.denote ∧ f.offset = x.text.length ∧ f.stuck = false ∧ f.fault = none := by
+  obtain ⟨hv, hhs, hst, hmd, hstrict⟩ := noVal_of_flags depth 0 t hnew (Or.inl rfl)
+  have hns : t.strict = false := by
+    cases h : t.strict with
+    | false => rfl
+    | true => have := hstrict.mp h; cases this
+  exact xtop_level lc hl t (new_wf depth 0 t hnew) hst hv hhs hns x hok hknf (by rw [hmd]; omega)
+
+open Rfc8259X in
+/-- the value returned for the text with extensions is the value returned for the original text
+(when that one is well-formed RFC 8259: `parse_valid`) -/
+theorem default_same_value_as_original (lc : Libc) (hl : LibcSpec lc) (depth : Int) (t : Tok) (hnew : Tokener.new depth 0 = some t)
+    (x : XText) (hok : x.ok = true) (hok' : x.erase.doc.ok = true) (hknf : x.doc.erase.keysNulFree = true)
+    (hdepth : x.doc.erase.nest + 1 ≤ depth.toNat) :
+    (parseEx lc t (x.text ++ [0])).value = (parseEx lc t (x.erase.text ++ [0])).value ∧
+    (parseEx lc t (x.text ++ [0])).err = (parseEx lc t (x.erase.text ++ [0])).err := by
+  have h1 := default_accepts_extensions lc hl depth t hnew x hok hknf hdepth
+  have h2 := Props.C01.parse_valid lc hl depth 0 (Or.inl rfl) t hnew x.erase hok' hknf (fun h => by cases h) hdepth
+  exact ⟨h1.2.1.trans h2.2.1.symm, h1.1.trans h2.1.symm⟩
+
+open Rfc8259X in
+/-- **strict mode rejects every such text that contains at least one extension**, whatever else
+it contains and wherever the extension stands: the call ends with an error status (never success,
+never "continue"), returns no value, and no step of the run is undefined.  (Integers of the
+original document within 64 bits and nesting within the limit: otherwise strict mode fails for
+those reasons.) -/
+theorem strict_rejects_extensions (lc : Libc) (hl : LibcSpec lc) (depth : Int) (t : Tok) (hnew : Tokener.new depth 1 = some t)
+    (x : XText) (hok : x.ok = true) (hfit : x.doc.erase.intsFit = true) (hknf : x.doc.erase.keysNulFree = true)
+    (hdepth : x.doc.erase.nest + 1 ≤ depth.toNat) (hext : x.plain = false) :
+    let f := parseEx lc t (x.text ++ [0])
+    f.err ≠ .success ∧ f.err ≠ .continue_ ∧ f.value = none ∧ f.stuck = false ∧ f.fault = none := by
+  obtain ⟨hv, hhs, hst, hmd, hstrict⟩ := noVal_of_flags depth 1 t hnew (Or.inr rfl)
+  have hland : (1 &&& Generated.tokenerAllowTrailing) = 0 := by decide
+  have hat : t.allowTrailing = false := by rw [new_eq_fresh hnew]; simp [Tok.allowTrailing, freshTok, hland]
+  exact xtop_level_strict lc hl t (new_wf depth 1 t hnew) hst hv hhs (hstrict.mpr rfl) hat x hok hfit hknf
+    (by rw [hmd]; omega) hext
+
+open Rfc8259X in
+/-- a text without extensions is the RFC 8259 text it stands for (those are C01's) -/
+theorem plain_is_rfc8259 (x : XText) (hok : x.ok = true) (hp : x.plain = true) : x.text = x.erase.text := by
+  simp only [XText.ok, XText.plain, Bool.and_eq_true] at hok hp
+  simp only [XText.text, XText.erase, Rfc8259.Text.text]
+  rw [gap_plain_text x.lead hp.1.1, gap_plain_text x.trail hp.2, xdoc_plain_text x.doc hok.1.2 hp.1.2]
+
+open Rfc8259X in
+/-- non-vacuity: `[1, /*c*/ 'a', TRUE,]` is such a text, it is not plain, and its original is `[1, "a", true]` -/
+def sampleX : XText :=
+  ⟨[], .arr [] [([], .num ⟨false, [1], none, none⟩, []),
+               ([.ws .sp, .block [99], .ws .sp], .str .sq [.raw 97], []),
+               ([.ws .sp], .lit .true_ [true, true, true, true], [])] (some []), []⟩
+
+open Rfc8259X in
+example : sampleX.ok = true ∧ sampleX.plain = false ∧ sampleX.doc.erase.keysNulFree = true ∧ sampleX.doc.erase.intsFit = true ∧
+    sampleX.doc.erase.nest = 1 ∧
+    sampleX.text = [91, 49, 44, 32, 47, 42, 99, 42, 47, 32, 39, 97, 39, 44, 32, 84, 82, 85, 69, 44, 93] := by
+  refine ⟨?_, ?_, ?_, ?_, ?_, ?_⟩ <;> decide
 
 /-- non-vacuity: the model rejects `[1,]`, `{'a':1}`, `01`, `1 x`, `[1 /*c*/]` in strict mode and accepts them in default mode -/
 example : ∃ s d, Tokener.new 32 1 = some s ∧ Tokener.new 32 0 = some d ∧
